@@ -14,7 +14,7 @@ const char* const entry_names[] = { "xpr_decl", "xpr_stmt", "xpr_type", "xpr_exp
 
 struct PrintResult {
    std::string text;
-   enum Outcome { Returned, Refused, SinkThrew, OtherException } outcome = Returned;
+   enum Outcome { Returned, Refused, SinkThrew, OtherException, AllocFailed } outcome = Returned;
    std::string what;
    sim::StreamState before, after;
    int indent_after = 0;
@@ -33,6 +33,7 @@ struct StreamCfg {
    bool exceptions = false;
    bool locations = false;
    bool reuse_after_failure = false;    // if the sink failed, repair it and print once more with the same Printer
+   uint32_t alloc_fault = 0;            // the k-th allocation made on the library's behalf while printing fails (0: none)
 };
 
 // Print one thing through a fresh Printer on a simulated stream.
@@ -52,14 +53,21 @@ PrintResult print_with(const ipr::Lexicon& lex, const StreamCfg& cfg, F emit)
       ipr::Printer pp(lex, os);
       pp.print_locations = cfg.locations;
       try {
+         if (cfg.alloc_fault != 0) sim::heap::arm_fault(cfg.alloc_fault);
          emit(pp);
+         sim::heap::arm_fault(0);
          r.indent_after = pp.indent();
          // numbers written through the printer's public operators after the print: a leaked base shows here
          pp << ' ' << ipr::Mapping_level{ 255 } << ' ' << ipr::Decl_position{ 4095 };
       }
-      catch (const std::logic_error& e) { r.outcome = PrintResult::Refused; sim::HarnessScope h; r.what = e.what(); }
-      catch (const sim::SimStreamFailure&) { r.outcome = PrintResult::SinkThrew; }
-      catch (const std::ios_base::failure&) { r.outcome = PrintResult::SinkThrew; }
+      catch (const std::logic_error& e) { sim::heap::arm_fault(0); r.outcome = PrintResult::Refused; sim::HarnessScope h; r.what = e.what(); }
+      catch (const sim::SimStreamFailure&) { sim::heap::arm_fault(0); r.outcome = PrintResult::SinkThrew; }
+      catch (const std::ios_base::failure&) { sim::heap::arm_fault(0); r.outcome = PrintResult::SinkThrew; }
+      catch (const std::bad_alloc&) {
+         sim::heap::arm_fault(0);
+         if (cfg.alloc_fault == 0 or not sim::heap::fault_fired()) throw;
+         r.outcome = PrintResult::AllocFailed;
+      }
       r.after = sim::state_of(os);
       r.bad = os.bad();
       { sim::HarnessScope h; r.text = buf.data; }
@@ -90,6 +98,7 @@ std::string outcome_tag(const PrintResult& r)
    case PrintResult::Returned: return "";
    case PrintResult::Refused: return "<refused:logic_error>";
    case PrintResult::SinkThrew: return "<sink threw>";
+   case PrintResult::AllocFailed: return "<bad_alloc>";
    default: return "<exception " + r.what + ">";
    }
 }
@@ -165,7 +174,7 @@ std::vector<OpWeight> clean_table()
 constexpr double unfolded_limit = 200000;
 
 enum P17 { Q_ops, Q_units_printed, Q_bytes, Q_refused_prints, Q_locations_seen, Q_located_stmts, Q_policy_pairs_diff, Q_noise_allocs, Q_unrelated_nodes,
-           Q_second_print_eq, Q_digest_checks, Q_nodes, Q_nodes_printed, Q_nonempty_texts, Q_reuse, Q_too_large, Q_count };
+           Q_second_print_eq, Q_digest_checks, Q_nodes, Q_nodes_printed, Q_nonempty_texts, Q_reuse, Q_too_large, Q_print_faults_cfg, Q_print_faults_fired, Q_count };
 
 struct C17 : Scenario {
    const char* id() const override { return "C17"; }
@@ -182,7 +191,7 @@ struct C17 : Scenario {
    {
       return { "ops", "units_printed", "bytes_compared", "prints_refused_logic_error", "sentinel_locations_found", "located_statements", "policy_pairs_different", "noise_allocations_in_L2",
                "unrelated_nodes_in_L2", "second_print_comparisons", "graph_digest_checks", "modelled_objects", "nodes_printed", "nonempty_texts_compared", "heap.reused_blocks",
-               "opt.prints_left_out_unfolded_size_over_limit" };
+               "opt.prints_left_out_unfolded_size_over_limit", "fault.alloc_during_print_configured", "fault.alloc_during_print_fired" };
    }
    std::vector<std::string> assumptions() const override
    {
@@ -221,6 +230,8 @@ struct C17 : Scenario {
       p.set("policy2", int64_t(r.below(4)));
       p.set("noise", int64_t(r.below(6)));
       p.set("style", int64_t(r.below(8)));
+      // one run in four: before anything is compared, L1 prints its units with an allocation failing in the middle
+      if (r.chance(1, 4)) p.set("print_fault", int64_t(r.range(1, 8)));
       return p;
    }
 
@@ -302,6 +313,27 @@ struct C17 : Scenario {
 
       StreamCfg cfg;
       cfg.style = uint64_t(plan.get("style", 0));
+      // Fault phase: L1 prints each of its units a few times with one allocation failing in the middle of the print
+      // (std::bad_alloc is a legal end of such a print).  Nothing is compared here; the comparisons below then run
+      // against a Lexicon that has been through failed prints and one that has not.
+      if (const int64_t k0 = plan.get("print_fault", 0); k0 > 0) {
+         sim::heap::set_owner(0); sim::heap::set_policy(p1);
+         for (size_t u = 0; u < w1.units.size(); ++u) {
+            const ipr::Translation_unit& u1 = *w1.units.v[u];
+            if (w1.print_weight(static_cast<const ipr::Translation_unit*>(&u1)) > unfolded_limit) continue;
+            for (int64_t k : { k0, k0 + 3, k0 + 9, k0 + 20, k0 + 45 }) {
+               StreamCfg fc = cfg;
+               fc.alloc_fault = uint32_t(k);
+               sim::heap::begin_op(w1.step + 1);
+               PrintResult r = print_with(*w1.lex, fc, [&](ipr::Printer& pp) { pp << u1; });
+               ctx.probe(Q_print_faults_cfg);
+               if (r.outcome == PrintResult::AllocFailed) ctx.probe(Q_print_faults_fired);
+               ctx.event("faulty print unit#%zu alloc#%lld -> %s", u, (long long) k, outcome_tag(r).c_str());
+               if (r.outcome == PrintResult::OtherException)
+                  return Verdict::fail("C17/exception/unit", "printing with a failing allocation threw something that is neither std::bad_alloc nor std::logic_error: " + r.what);
+            }
+         }
+      }
       auto compare = [&](const char* what, size_t index, auto emit1, auto emit2) -> Verdict {
          for (int loc = 0; loc < 2; ++loc) {
             cfg.locations = loc != 0;
